@@ -203,9 +203,19 @@ def asset_term(a, spec, G='G'):
             for n in b['nodes']:
                 if n not in inner_nodes:
                     inner_nodes.append(n)
+        tz = spec['grid'].get('tz')
+        inner = []
+        for b in a['assets']:
+            # joint life time (calendar resolution): where both name a start (end), the later (earlier) one counts
+            b = dict(b)
+            if a.get('start') and b.get('start') and inst(a['start'], tz) > inst(b['start'], tz):
+                b['start'] = a['start']
+            if a.get('end') and b.get('end') and inst(a['end'], tz) < inst(b['end'], tz):
+                b['end'] = a['end']
+            inner.append(b)
         return '(build_struct %s %s %s %s %s)' % (G, C.s(a['name']), C.lst([C.s(n) for n in inner_nodes]),
                                                   C.lst([C.s(n) for n in a['nodes']]),
-                                                  C.lst([asset_term(b, spec, G) for b in a['assets']]))
+                                                  C.lst([asset_term(b, spec, G) for b in inner]))
     raise ValueError('asset kind %s not modelled' % k)
 
 
